@@ -37,7 +37,26 @@ import (
 type KD struct {
 	Use  string `json:"use"`  // encryption | signing | "" (omitted)
 	Cert string `json:"cert"` // rsa | rsa2 | rsachain (SP certificate followed by a second one in the same X509Data) | ec | empty | blank | notb64 | garbage | none (zero X509Certificate elements)
+	// Methods: EncryptionMethod elements listed beside the key (short names, see methodURIs).  Whatever
+	// the SP says it prefers, an advertised key means the assertion does not travel in clear.
+	Methods []string `json:"methods,omitempty"`
 }
+
+var methodURIs = map[string]string{
+	"aes128-cbc":     "http://www.w3.org/2001/04/xmlenc#aes128-cbc",
+	"aes192-cbc":     "http://www.w3.org/2001/04/xmlenc#aes192-cbc",
+	"aes256-cbc":     "http://www.w3.org/2001/04/xmlenc#aes256-cbc",
+	"tripledes-cbc":  "http://www.w3.org/2001/04/xmlenc#tripledes-cbc",
+	"aes128-gcm":     "http://www.w3.org/2009/xmlenc11#aes128-gcm",
+	"aes256-gcm":     "http://www.w3.org/2009/xmlenc11#aes256-gcm",
+	"rsa-oaep-mgf1p": "http://www.w3.org/2001/04/xmlenc#rsa-oaep-mgf1p",
+	"rsa-oaep":       "http://www.w3.org/2009/xmlenc11#rsa-oaep",
+	"rsa-1_5":        "http://www.w3.org/2001/04/xmlenc#rsa-1_5",
+	"unknown":        "urn:example:some-future-algorithm",
+	"blank":          "",
+}
+
+var methodNames = []string{"aes128-cbc", "aes192-cbc", "aes256-cbc", "tripledes-cbc", "aes128-gcm", "aes256-gcm", "rsa-oaep-mgf1p", "rsa-oaep", "rsa-1_5", "unknown", "blank"}
 
 // Session strings (each carries a marker).
 type Session struct {
@@ -119,6 +138,13 @@ func metadata(kds []KD, lead ...int) *saml.EntityDescriptor {
 			if k.Cert == "rsachain" {
 				kd.KeyInfo.X509Data.X509Certificates = append(kd.KeyInfo.X509Data.X509Certificates, saml.X509Certificate{Data: fix.Get("idp2").CertB64()})
 			}
+		}
+		for _, m := range k.Methods {
+			uri, ok := methodURIs[m]
+			if !ok {
+				uri = m
+			}
+			kd.EncryptionMethods = append(kd.EncryptionMethods, saml.EncryptionMethod{Algorithm: uri})
 		}
 		d.KeyDescriptors = append(d.KeyDescriptors, kd)
 	}
@@ -392,7 +418,14 @@ func checkIDP(c Case) pbt.Result {
 			defective = true
 		}
 	}
-	res.NonTrivial = len(c.KDs) >= 2 || defective
+	withMethods := false
+	for _, k := range c.KDs {
+		withMethods = withMethods || len(k.Methods) > 0
+	}
+	res.NonTrivial = len(c.KDs) >= 2 || defective || withMethods
+	if withMethods {
+		res.Classes = append(res.Classes, "idp:encryption-method-list")
+	}
 	if adv {
 		res.Classes = append(res.Classes, "advertised", "first-usable:"+first)
 	} else {
@@ -829,6 +862,13 @@ func sanitize(s Session) Session {
 	return s
 }
 
+func genMethods(t *rapid.T) []string {
+	if rapid.IntRange(0, 2).Draw(t, "methods?") != 0 {
+		return nil
+	}
+	return rapid.SliceOfN(rapid.SampledFrom(methodNames), 1, 4).Draw(t, "methods")
+}
+
 func gen(t *rapid.T) Case {
 	switch rapid.IntRange(0, 11).Draw(t, "kind") {
 	case 11:
@@ -840,7 +880,7 @@ func gen(t *rapid.T) Case {
 		for i := 0; i < n; i++ {
 			var kds []KD
 			for j := rapid.IntRange(0, 2).Draw(t, "nkd"); j > 0; j-- {
-				kds = append(kds, KD{Use: rapid.SampledFrom([]string{"encryption", "encryption", ""}).Draw(t, "use"), Cert: rapid.SampledFrom([]string{"rsa", "rsa2", "rsachain", "ec", "empty"}).Draw(t, "cert")})
+				kds = append(kds, KD{Use: rapid.SampledFrom([]string{"encryption", "encryption", ""}).Draw(t, "use"), Cert: rapid.SampledFrom([]string{"rsa", "rsa2", "rsachain", "ec", "empty"}).Draw(t, "cert"), Methods: genMethods(t)})
 			}
 			c.Seq = append(c.Seq, kds)
 		}
@@ -849,7 +889,7 @@ func gen(t *rapid.T) Case {
 		n := rapid.IntRange(0, 4).Draw(t, "nkd")
 		c := Case{Kind: "idp", Session: sanitize(genSession(t)), Method: rapid.SampledFrom([]string{"POST", "GET", "initiated"}).Draw(t, "method"), Lead: rapid.SampledFrom([]int{0, 0, 1, 2}).Draw(t, "lead")}
 		for i := 0; i < n; i++ {
-			c.KDs = append(c.KDs, KD{Use: rapid.SampledFrom([]string{"encryption", "encryption", "", "signing"}).Draw(t, "use"), Cert: rapid.SampledFrom(certClasses).Draw(t, "cert")})
+			c.KDs = append(c.KDs, KD{Use: rapid.SampledFrom([]string{"encryption", "encryption", "", "signing"}).Draw(t, "use"), Cert: rapid.SampledFrom(certClasses).Draw(t, "cert"), Methods: genMethods(t)})
 		}
 		return c
 	case 4:
@@ -891,6 +931,36 @@ func enumLayouts(tier string, emit func(Case)) {
 			if tier == "thorough" {
 				for _, c := range all {
 					emit(Case{Kind: "idp", Session: s, Method: "GET", KDs: []KD{a, b, c}})
+				}
+			}
+		}
+	}
+}
+
+// enumMethods: a usable key whose descriptor lists EncryptionMethod elements - every single algorithm,
+// every pair of a block cipher and a key transport, alone or beside a second descriptor of each use.
+func enumMethods(_ string, emit func(Case)) {
+	s := Session{NameID: "mnameid0123456789", Email: "memail0123456789@example.com", Name: "mname0123456789", Index: "idx0123456789", Custom: "mcustom0123456789", Groups: []string{"mgroup0123456789"}}
+	var lists [][]string
+	for _, m := range methodNames {
+		lists = append(lists, []string{m})
+	}
+	for _, b := range []string{"aes128-cbc", "aes256-cbc", "aes128-gcm", "aes256-gcm", "tripledes-cbc", "unknown"} {
+		for _, k := range []string{"rsa-oaep-mgf1p", "rsa-oaep", "rsa-1_5"} {
+			lists = append(lists, []string{b, k}, []string{k, b})
+		}
+	}
+	lists = append(lists, []string{"aes256-gcm", "aes256-cbc"}, []string{"aes256-cbc", "aes128-cbc"})
+	for _, use := range []string{"encryption", ""} {
+		for _, cert := range []string{"rsa", "rsachain"} {
+			for _, l := range lists {
+				k := KD{Use: use, Cert: cert, Methods: l}
+				for _, m := range []string{"POST", "initiated"} {
+					emit(Case{Kind: "idp", Session: s, Method: m, KDs: []KD{k}})
+				}
+				for _, other := range []KD{{Use: "signing", Cert: "rsa"}, {Use: "", Cert: "rsa"}, {Use: "encryption", Cert: "empty"}, {Use: "encryption", Cert: "rsa", Methods: []string{"aes128-cbc", "rsa-oaep-mgf1p"}}} {
+					emit(Case{Kind: "idp", Session: s, Method: "POST", KDs: []KD{k, other}})
+					emit(Case{Kind: "idp", Session: s, Method: "POST", KDs: []KD{other, k}})
 				}
 			}
 		}
@@ -960,15 +1030,15 @@ func enumSP(_ string, emit func(Case)) {
 
 var prop = &pbt.Prop[Case]{
 	ID: "C08",
-	Rule: "cases: (idp) sessions whose strings carry unique alphanumeric markers x registered SP metadata whose KeyDescriptor list is any sequence over use in {encryption, omitted, signing} x certificate in {valid RSA, second valid RSA, valid EC, empty, white space, not base64, base64 of garbage, no X509Certificate element} through ServeSSO (POST, GET) and ServeIDPInitiated " +
+	Rule: "cases: (idp) sessions whose strings carry unique alphanumeric markers x registered SP metadata whose KeyDescriptor list is any sequence over use in {encryption, omitted, signing} x certificate in {valid RSA, second valid RSA, valid EC, empty, white space, not base64, base64 of garbage, no X509Certificate element} x optional EncryptionMethod lists beside the key (block ciphers, key transports, unknown and blank algorithms) through ServeSSO (POST, GET) and ServeIDPInitiated " +
 		"(all sequences of length <= 2 enumerated, <= 3 in thorough); (fresh) sequences of 8-12 responses with the default random source (pairwise distinct content keys and IVs) and with a recording xmlenc.RandReader fed generated bytes (key and IV are values drawn for that response, >= 32 bytes consumed); " +
 		"(spmeta) one assertion with a chosen defect presented in clear and encrypted to the SP: the verdicts must agree and match the defect; (tamper) ciphertext encrypted to another key, assertions encrypted by a party without the IdP key, flipped / truncated / reordered cipher values. " +
 		"oracle: advertises = some descriptor usable for encryption has non-blank certificate text => reply is an error status or a form with exactly one EncryptedAssertion, no clear Assertion and no session marker anywhere in the HTML or decoded XML; with a valid RSA certificate first the reply must succeed, an independent stdlib decryptor with the SP key recovers a signed assertion carrying all markers and no other private key does. " +
-		"non-trivial: (idp) >= 2 descriptors or a defective certificate; fresh and tamper always; (spmeta) the defect is not 'none'. distinct: sha256 of the JSON case.",
+		"non-trivial: (idp) >= 2 descriptors, a defective certificate or an EncryptionMethod list; fresh and tamper always; (spmeta) the defect is not 'none'. distinct: sha256 of the JSON case.",
 	Gen:   gen,
 	Check: check,
 	Reset: fix.Reset,
-	Enums: []pbt.Enum[Case]{{Name: "key-descriptor-layouts", Each: enumLayouts}, {Name: "sp-defects-and-tampering", Each: enumSP}, {Name: "re-registration-sequences", Each: enumRekey}, {Name: "cbc-padding-through-the-sp", Each: enumPad}},
+	Enums: []pbt.Enum[Case]{{Name: "key-descriptor-layouts", Each: enumLayouts}, {Name: "sp-defects-and-tampering", Each: enumSP}, {Name: "re-registration-sequences", Each: enumRekey}, {Name: "cbc-padding-through-the-sp", Each: enumPad}, {Name: "encryption-method-lists", Each: enumMethods}},
 	Assumptions: []string{
 		"CR is kept out of session strings (separate finding of C07)",
 		"RSA-OAEP randomness drawn from the recording source may include extra bytes (Go's MaybeReadByte); membership of key and IV among the recorded reads is what is checked",
